@@ -374,6 +374,10 @@ class Mini:
             return acc if m == 'fold' else ('Some', acc)
         if recv is INPUT or (isinstance(recv, tuple) and recv and recv[0] == 'iter' and recv[1] is INPUT):
             raise Undecided('method %s on the symbolic input' % m)
+        if m == 'then_some' and len(args) == 1 and isinstance(recv, bool):
+            return ('Some', args[0]) if recv else None
+        if m == 'then' and len(args) == 1 and isinstance(recv, bool) and isinstance(args[0], Closure):
+            return ('Some', self.apply(args[0], [])) if recv else None
         if m == 'is_some' and not args:
             return recv is not None
         if m == 'is_none' and not args:
